@@ -143,7 +143,9 @@ class ExprMixin(ExecBase):
         n = e.id
         if n in st.env:
             v = st.env[n]
-            if isinstance(v, V) and v.lv is not None and v.lv[0] != "local" and not self.spec:
+            if isinstance(v, V) and v.lv is not None and v.lv[0] != "local" and not self.spec \
+                    and isinstance(v.ty, (List, Set, Dict)):
+                # a local bound to a mutable container that lives in the heap is an alias: re-read it
                 return [(st, self.read_lv(st, v.lv))]
             return [(st, v)]
         if n in st.ghost:
@@ -151,17 +153,18 @@ class ExprMixin(ExecBase):
         return [(st, self.global_name(n, st))]
 
     def global_name(self, n, st=None):
-        c = self.c
+        ctx = getattr(self, "spec_ctx", None)
+        c = ctx[0] if (ctx and self.spec) else self.c          # a callee's clauses resolve names in *its* module
         if n in c.binds:
             b = c.binds[n]
             return b if isinstance(b, V) else self.py_const(b)
         if self.spec and n in C.SPECFNS:
             return V(PYOBJ, PyThing("specfn", name=n))
-        mod = self.module
+        mod = ctx[1] if (ctx and self.spec) else self.module
         if n in mod.consts:
             return self.py_const(mod.consts[n])
         if n in mod.enums:
-            return V(PYOBJ, PyThing("enumcls", name=n, ty=self.enum_ty(n)))
+            return V(PYOBJ, PyThing("enumcls", name=n, ty=self.enum_ty(n, mod)))
         if n in mod.classes:
             if n in self.exc_names():
                 return V(EXC, z3.IntVal(self.exc_id(n)))
